@@ -275,6 +275,10 @@ def worker(lines):
 
 def replay(case):
     row = case['row']
+    if row[0] == 'socket':
+        from . import c18
+        r = c18.replay_link(*row[1:])
+        return r and '%s: %s' % r
     if row[0] == 'multi':
         from . import c11multi
         r = c11multi.replay_row(row)
@@ -303,6 +307,22 @@ def run(ctx):
         pass
     n = pr.finish()
     ctx.note('histories', n)
+    # a real device that closes itself: SocketPort on a socketpair (the peer
+    # disconnects before / between / after the messages); the connection must
+    # be released exactly once
+    from . import c18
+    m1, m2 = [0x90, 1, 2], [0xc1, 5]
+    for mode, stream, cut, acts, delivered, polls in [
+            ('iterate', m1 + m2, 5, [[5, 0]], [m1, m2], []),
+            ('iterate', m1 + m2, 5, [[3], [2], [0]], [m1, m2], []),
+            ('iterate', m1, 0, [[0]], [], []),
+            ('poll', m1 + m2, 5, [[5, 0]], [m1, m2], [m1, m2, []]),
+            ('poll', m1, 2, [[2], [0]], [], [[], []])]:
+        r = c18.replay_link(mode, stream, cut, acts, delivered, polls)
+        ctx.replayed += 1
+        if r:
+            ctx.violation('lifecycle/socket/%s' % r[0], {'row': ['socket', mode, stream, cut, acts, delivered, polls]},
+                          '%s (SocketPort, %s, peer actions %r)' % (r[1], mode, acts))
     ctx.constants = {'plan': plan}
     ctx.exhaustive = True
     ctx.assumptions += [
